@@ -39,6 +39,9 @@ def exact_time_premises(ctx, rep, prefix=""):
     rep = _R()
     r1 = rep.rule("P1.formula", "sec = 60*ticks/(bpm*resolution), IEEE * and / only, <= 8 roundings", floor=1)
     T.check_sec_formula(r1)
+    r1g = rep.rule("P1.guards", "the seconds function refuses exactly ticks < 0, bpm <= 0, resolution <= 0 (comparisons on the float tempo "
+                                "are not integer comparisons: `bpm < 1` is not `bpm <= 0`): every valid tempo yields a time", floor=8)
+    T.check_sec_guards(r1g)
     r2 = rep.rule("P2.conversion", "float -> timestamp only via timedelta(seconds=sec(...))", floor=3)
     escape.check_float_to_time(ctx, r2, T)
     r3 = rep.rule("P3.accumulate", "tempo event time = prev.timestamp + us(sec(|dtick|, prev.bpm, resolution)); first = 0", floor=2)
